@@ -60,7 +60,7 @@ Lemma lm_remove_spec : forall cols m r k m' o, lm_inv cols m ->
 Proof.
   intros cols m r k m' o I H. unfold lm_remove in H.
   destruct (tw_remove_spec Z.eqb vals_eqb always key_hashable KLookupSet (right_kind cols)
-              Z_equiv key_equiv always_congr key_hashable_congr m r k m' o I H) as [I' [_ [S [HD HR]]]].
+              Z_equiv key_equiv m r k m' o I H) as [I' [_ [S [HD HR]]]].
   split; [exact I'|split; [exact S|]].
   intros r' k'. rewrite !mrel_fr. destruct o as [|e].
   - apply HD. reflexivity.
@@ -181,7 +181,8 @@ Lemma contains_keys_hashable : forall cols cells, uses_contains cols = true ->
   forallb key_hashable (new_keys cols cells) = true.
 Proof.
   intros cols cells H. unfold new_keys. rewrite H. apply forallb_forall. intros k Hk.
-  apply dedup_subset in Hk. eapply product_hashable; [|exact Hk]. apply zip_groups_hashable.
+  apply dedup_subset in Hk. unfold new_keys_iter in Hk. rewrite H in Hk.
+  eapply product_hashable; [|exact Hk]. apply zip_groups_hashable.
 Qed.
 
 Lemma keys_of_contains : forall cols cells, uses_contains cols = true -> keys_of cols cells = new_keys cols cells.
@@ -207,7 +208,7 @@ Qed.
 
 Lemma keys_of_simple : forall cols cells, uses_contains cols = false ->
   keys_of cols cells = if key_hashable (map extract cells) then [map extract cells] else [].
-Proof. intros cols cells H. unfold keys_of, new_keys. rewrite H. cbn. reflexivity. Qed.
+Proof. intros cols cells H. unfold keys_of, new_keys, new_keys_iter. rewrite H. cbn. reflexivity. Qed.
 
 Lemma update_record_spec : forall cols m r cells, lm_inv cols m ->
   let m' := fst (update_record cols m r cells) in
